@@ -98,17 +98,31 @@ def run_case(case):
     if red.get("locals") and good_ids:
         init = red["locals"]["l"]
         red["locals"]["l"] = init if init in good_ids else good_ids[0]
+    # pulse start/end times of the FULL sequence, per channel: the reduced sequence must keep them (Pulser would otherwise start a
+    # global pulse earlier once the local pulse on a shared - now absent - atom has become a plain delay)
+    full_seq = seqgen.build(spec)
+    starts = {ch: [(sl.ti, sl.tf) for sl in sched.slots if not isinstance(sl.type, str)] for ch, sched in full_seq._schedule.items()}
+    kth, tcur = {}, {}
     for op in red["ops"]:
         if op["op"] == "target":
             cur = op["q"]
             if cur in good_ids:
                 new_ops.append(op)
             continue
-        if op["op"] == "pulse" and op["ch"] == "l":
-            if cur not in good_ids:
-                new_ops.append({"op": "delay", "ch": "l", "dur": seqgen.wf_duration(op["amp"])})
-                continue
-            new_ops.append({"op": "target", "ch": "l", "q": cur})
+        if op["op"] == "pulse":
+            ch = op["ch"]
+            k = kth.get(ch, 0)
+            kth[ch] = k + 1
+            ti, tf = starts[ch][k]
+            if ti > tcur.get(ch, 0):
+                new_ops.append({"op": "delay", "ch": ch, "dur": int(ti - tcur.get(ch, 0))})
+            tcur[ch] = tf
+            op = dict(op, protocol="no-delay")
+            if ch == "l":
+                if cur not in good_ids:
+                    new_ops.append({"op": "delay", "ch": "l", "dur": int(tf - ti)})
+                    continue
+                new_ops.append({"op": "target", "ch": "l", "q": cur})
         new_ops.append(op)
     red["ops"] = new_ops
     fp = f"{bk}:n{n}:mask{''.join(map(str, mask))}:re{int(case['reorder'])}:leak{int(case['leak'])}:{'l' if spec.get('locals') else ''}{'slm' if spec.get('slm') else ''}"
